@@ -17,7 +17,7 @@ import ast
 
 import z3
 
-from .containers import SymKey, SymKeySeq
+from .containers import SymKey, SymKeySeq, SymSet
 from .values import Opaque, Unsupported
 
 
@@ -87,3 +87,25 @@ def pair_snd_at(P, seq, i):
     if isinstance(seq, (tuple, list)) and isinstance(i, int):
         return seq[i][1] if 0 <= i < len(seq) else None
     raise Unsupported(f'pair_snd_at on {seq!r}')
+
+
+class SymBag(SymSet):
+    """An initially empty local LIST that the target only appends keys to and tests for emptiness
+    (`unreachable: list[Stmt] = []` ... `.append(stmt)` ... `if unreachable:`), abstracted by its element SET
+    (contract option local_types = {'unreachable': 'set[Stmt]'}).  Exact for `append` and truthiness: a list
+    built by appends is non-empty iff its element set is.  Order / multiplicity are not modelled: any other use
+    (indexing, len, iteration) is UNSUPPORTED, except inside the construction of an exception message."""
+    __slots__ = ()
+
+    def clone(self):
+        return SymBag(self.member, self.kname, self.name)
+
+    def __repr__(self):
+        return f'<symbag {self.name or hex(id(self))}: {self.kname}>'
+
+
+def empty_bag(P, typ):
+    from . import containers
+    b = SymBag(lambda x: z3.BoolVal(False), typ[1])
+    containers._register_fresh(P, b)
+    return b
